@@ -1,6 +1,7 @@
 package main
 
 import (
+	"fmt"
 	"go/ast"
 	"go/types"
 	"math/big"
@@ -68,6 +69,23 @@ func (e *Engine) callExternal(fn *types.Func, recv Value, args []Value, cx *ast.
 	case "log/slog.Error", "log/slog.Info", "log/slog.Warn", "log/slog.Debug", "log.Printf", "log.Println", "log.Print",
 		"log/slog.Logger.Error", "log/slog.Logger.Info", "log/slog.Logger.Warn", "log/slog.Logger.Debug":
 		return VTuple{}
+	case "database/sql.Stmt.Exec":
+		// assumed external: each Exec of a prepared statement performs one database write, in call order; logged as
+		// nexec(stmt), execarg(stmt, i, k) so that contracts can say which writes have happened at return
+		e.notes["assumed external: database/sql (*Stmt).Exec performs its write synchronously, once per call (logged as nexec/execarg)"] = true
+		rt := recv.(VTerm).T
+		key := "nexec:" + rt.String()
+		n := st.getMem(key, mkApp("nexec0", SInt, rt))
+		if sl, ok := args[0].(VSlice); ok {
+			_ = sl
+		}
+		for i, a := range e.lastAnyArgs {
+			if t, ok := a.(VTerm); ok {
+				st.assume(mkEq(mkApp(fmt.Sprintf("execarg%d_%s", i, sortTag(t.T.Sort)), t.T.Sort, rt, n), t.T))
+			}
+		}
+		st.mem[key] = mkArith("+", n, mkInt(1))
+		return VTuple{VTerm{T: e.fresh("sqlres", SRef), Typ: fn.Type().(*types.Signature).Results().At(0).Type()}, VTerm{T: e.fresh("err", SRef), Typ: fn.Type().(*types.Signature).Results().At(1).Type()}}
 	case "time.Sleep":
 		return VTuple{}
 	case "sync.WaitGroup.Add", "sync.WaitGroup.Done", "sync.WaitGroup.Wait":
